@@ -144,6 +144,34 @@ Definition hp_granted (r : hp_result) : bool := match r with ByPolicy d => grant
 Definition sec_principals_allowed (authz : bool) (L : lineage) (p : text) : list text :=
   if authz then gen_policy_principals_allowed L p else [everyone].
 
+(* ---- pyramid.location.lineage: hand-written reference ([gen_lineage] is the regenerated program) *)
+Definition step_parent (W : world) (x : nat) : option nat :=
+  match parent_of W x with PTo y => Some y | _ => None end.
+
+Fixpoint lineage_from (W : world) (fuel : nat) (r : option nat) : option (list nat) :=
+  match fuel with
+  | 0 => None
+  | S f => match r with None => Some [] | Some x => ocons x (lineage_from W f (step_parent W x)) end
+  end.
+
+(* the decision / the report for a resource of a world: lineage() first, then the ACL scan over the ACLs found *)
+Definition world_acls (W : world) (fuel : nat) (ctx : nat) : option lineage :=
+  match gen_lineage W fuel (Some ctx) with Some l => Some (map (acl_of W) l) | None => None end.
+Definition world_permits (W : world) (fuel : nat) (ctx : nat) (ps : list text) (p : text) : option decision :=
+  match world_acls W fuel ctx with Some L => Some (gen_permits L ps p) | None => None end.
+Definition world_principals_allowed (W : world) (fuel : nat) (ctx : nat) (p : text) : option (list text) :=
+  match world_acls W fuel ctx with Some L => Some (gen_principals_allowed L p) | None => None end.
+
+(* the world the harness builds: location i of the case is resource i, its __parent__ is resource i+1; the last one
+   has __parent__ = None or no such attribute ([e]) *)
+Fixpoint chain_from (i : nat) (L : lineage) (e : ptr) : world :=
+  match L with
+  | [] => []
+  | [a] => [mkNode e a]
+  | a :: r => mkNode (PTo (S i)) a :: chain_from (S i) r e
+  end.
+Definition chain_world (L : lineage) (e : ptr) : world := chain_from 0 L e.
+
 (* ---- wire glue *)
 Definition get_action (v : val) : option action :=
   match v with VI 0%Z => Some Deny | VI 1%Z => Some Allow | VI _ => Some Other | _ => None end.
@@ -174,7 +202,7 @@ Definition put_decision (d : decision) : val :=
 Definition put_hp (r : hp_result) : val :=
   match r with ByPolicy d => put_decision d | NoPolicyAllowed => VL [VI 1; VT [110; 111; 45; 112; 111; 108; 105; 99; 121]%N] end.
 
-(* case = [lineage; principals; permission]
+(* case = [lineage; principals; permission; root's __parent__ (0 = None, 1 = no attribute)]
    answer = [regenerated permits; regenerated principals_allowed; spec granted; wf;
              hand-written permits; hand-written principals_allowed;
              regenerated ACLAuthorizationPolicy.permits; regenerated ACLAuthorizationPolicy.principals_allowed_by_permission;
@@ -183,8 +211,12 @@ Definition put_hp (r : hp_result) : val :=
 Definition run_C11 (v : val) : val :=
   ret_or_bad (
     match v with
-    | VL [l; ps; p] =>
-        olet L := get_lineage l in olet ps := get_texts ps in olet p := get_text p in
+    | VL [l; ps; p; root] =>
+        olet L0 := get_lineage l in olet ps := get_texts ps in olet p := get_text p in
+        olet e := (match root with VI 0%Z => Some PNone | VI 1%Z => Some PMissing | _ => None end) in
+        (* the lineage the code scans is the one the REGENERATED lineage() yields in the world of the case *)
+        let W := chain_world L0 e in
+        olet L := world_acls W (S (length W)) 0 in
         Some (VL [put_decision (gen_permits L ps p);
                   vtexts (gen_principals_allowed L p);
                   vbool (spec_granted L ps p);
